@@ -341,13 +341,20 @@ def run(ctx: Ctx) -> None:
     ctx.log(f"mechanism revision observed on the tree: {variant} {info}")
 
     # ---------------------------------------------------------------- (1) TLC
-    maxn = ctx.pick(4, 5)
+    maxn = 4
     res = run_tlc("MCQubitOrder", None, workdir=ctx.work, name="mc_repaired", workers=workers,
                   cfg_text=Q.qo_cfg("cV111", maxn, 0, 3, "cBoth", "all", False, False, C03_INVS))
     ctx.add_tlc(res)
     if res["violated"]:
         raise MachineryError(f"the site-order revision of the mechanism violates the requirement in the model: {res['violated']} (spec bug) see {res['outfile']}")
-    ctx.log(f"TLC: site-order mechanism |= C03 requirement for all n <= {maxn}: {res['distinct']} states")
+    ctx.log(f"TLC: site-order mechanism |= C03 requirement for all n <= {maxn} (all dark masks): {res['distinct']} states")
+    if not ctx.quick:
+        res5 = run_tlc("MCQubitOrder", None, workdir=ctx.work, name="mc_repaired_n5", workers=workers, timeout=3000,
+                       cfg_text=Q.qo_cfg("cV111", 5, 0, 3, "cBoth", "nospe", False, False, C03_INVS))
+        ctx.add_tlc(res5)
+        if res5["violated"]:
+            raise MachineryError(f"n = 5: the site-order revision violates {res5['violated']} (spec bug) see {res5['outfile']}")
+        ctx.log(f"TLC: ... and for n <= 5 without dark atoms (C25 covers them): {res5['distinct']} states")
     cov = run_tlc("MCQubitOrder", None, workdir=ctx.work, name="mc_coverage", workers=4, coverage=True,
                   cfg_text=Q.qo_cfg(variant, 2, 0, 2, "cBoth", "all", False, False, []))
     ctx.add_tlc(cov)
